@@ -21,7 +21,10 @@ def visit(node, env, pred, out, guards=()):
             if s["k"] == "Let":
                 if s.get("init") is not None:
                     visit(s["init"], e2, pred, out, guards)
-                    if H.kind(s["pat"]) == "Bind":
+                    if H.kind(s["pat"]) == "Bind" and "Mut" in (s["pat"].get("mode") or "") and s["pat"]["name"] in S.reassigned_in(node):
+                        e2.roles.pop(s["pat"]["name"], None)
+                        e2.inline.pop(s["pat"]["name"], None)  # a running value (counter / accumulator), not a definition
+                    elif H.kind(s["pat"]) == "Bind":
                         ce = e2.child()
                         e2.roles.pop(s["pat"]["name"], None)
                         e2.inline[s["pat"]["name"]] = (s["init"], ce)
